@@ -1915,8 +1915,19 @@ TARGETS += [
 #                was read from), declared external calls (`heapq.heappush/heappop` ↦ `Heap.heappush/heappop` of
 #                AcnModel/Queue.lean), declared constructors, and methods of an ABSTRACT receiver (`self.network.
 #                plugin(..)`) as function PARAMETERS of the definition.
+#   added for group StochOps (contrib StochasticNetwork, C19):
+#                `self.n += e` on a numeric attribute; `del d[k]`, `d.move_to_end(k)`, `a, b = d.popitem(last=<literal>)`
+#                on a mapped (Ordered)dict (KeyError when Python raises it; `dictDel / dictMoveToEnd / dictPopFirst? /
+#                dictPopLast?` of CodePreludeStoch); dict keys of type Optional[str] (`None in d` is False, `d[None]` is
+#                KeyError, `d[None] = v` is refused); `[… for k, v in d.items() if …]`; `super().m(..)` ↦ the target
+#                declared under "super_methods" of the object's type; trailing parameters left to a `= None` default;
+#                `random.choice(xs)` ↦ `pyChoice ρ xs` where the draw `ρ` is a declared INPUT (one call per method);
+#                method calls on a LOCAL the method owns — an object it has just taken out of a container with
+#                `popitem` — until the local's value is stored / passed on; IN-OUT parameters (`inout=("ev",)`: the
+#                caller's object is mutated, the translation returns `(self, ev) × Except PyErr _`).
 #   semantics    VALUE semantics: an object reachable through two access paths is two copies; none of the targets
-#                mutates such an object inside the translated method.  Nothing is guessed: whatever is not listed
+#                mutates such an object inside the translated method (the ownership rule above refuses a mutation
+#                after the value was handed on).  Nothing is guessed: whatever is not listed
 #                raises `Unsupported`, the definition is not emitted and its tie stops compiling.
 # ======================================================================================================
 
